@@ -184,7 +184,8 @@ func VerifRun(sites []VerifSite, pkgs []VerifPkg) []VerifResult {
 	sfiles := make([]*token.File, len(pkgs))
 	tfiles := make([]*token.File, len(pkgs))
 	for i := range pkgs {
-		tpkgs[i] = types.NewPackage(fmt.Sprintf("ex.com/p%02d", i), fmt.Sprintf("p%02d", i))
+		// all synthetic packages share one package NAME: only the import path tells them apart
+		tpkgs[i] = types.NewPackage(fmt.Sprintf("ex.com/p%02d/util", i), "util")
 		sfiles[i] = mkFile(fmt.Sprintf("p%02d/s.go", i))
 		tfiles[i] = mkFile(fmt.Sprintf("p%02d/t.go", i))
 	}
